@@ -118,3 +118,21 @@ Proof.
     - discriminate. }
   repeat split; try reflexivity. repeat constructor.
 Qed.
+
+(* canonical order: a section that puts a foreign descriptor AFTER a segmentation descriptor decodes to the same getters
+   as the reordered one, and re-encodes into the canonical order (foreign first): byte identity is claimed only for
+   sections already in that order *)
+Definition interleaved : splice_info :=
+  mksi [] 252 false false 3 0 false 0 0 0 4095 false Null [Seg 5 None; Foreign 1 [9]] [] 0.
+Definition reordered : splice_info :=
+  mksi [] 252 false false 3 0 false 0 0 0 4095 false Null [Foreign 1 [9]; Seg 5 None] [] 0.
+Lemma w_order_example :
+  supported interleaved /\
+  s_descs (expected interleaved) = s_descs (expected reordered) /\ s_other (expected interleaved) = s_other (expected reordered) /\
+  ser_section_nocrc interleaved <> ser_section_nocrc reordered /\
+  firstn 30 (fst (update_data (expected interleaved))) = ser_section_nocrc reordered.
+Proof.
+  split.
+  { unfold supported, wf_decode, interleaved. cbn. repeat (split || constructor); cbn; try lia; try discriminate; auto. }
+  vm_compute. repeat split; try reflexivity. intros C. discriminate C.
+Qed.
